@@ -46,6 +46,10 @@ def value(rng, depth, width):
         return scalar(rng)
     if r < 0.50:
         return rng.choice([[], {}])
+    if r < 0.56:
+        # homogeneous lists (numbers / strings in no particular order) - the common shape of real data
+        pool_ = rng.choice([SMALL_INTS, SMALL_INTS, ["b", "a", "c", "3", "true", "x"], [2.5, 0.5, 1.0, -2.5]])
+        return [rng.choice(pool_) for _ in range(rng.randint(1, width + 1))]
     if r < 0.75:
         return [value(rng, depth - 1, width) for _ in range(rng.randint(1, width))]
     return mapping(rng, depth - 1, width)
